@@ -9,6 +9,12 @@ SITES = [
          params_map={"array": "a", "new_sums": "newSum", "old_sums": "oldSum"}, params=["a", "newSum", "oldSum"], modes=["rat"]),
     dict(gen="Resample", name="sourceSigmaPixels", file=_MEA, func="_gaussian_source_size", select=("augassign", "padded_sigma", 0),
          params_map={"sigma[i]": "sigma", "scan_sampling": "ss"}, params=["sigma", "ss"], modes=["rat"]),
+    # interpolate(gpts=...): new sampling keeps the extent (fix 79bc3668: derived from the pattern's own sampling)
+    dict(gen="Resample", name="gptsRouteSampling", file=_MEA, func="_diffraction_pattern_resampling_gpts", select=("elt", "old_n / new_n", 0),
+         params_map={"d": "d", "old_n": "oldN", "new_n": "newN"}, params=["d", "oldN", "newN"], modes=["rat"]),
+    # Images/measurement gaussian_filter: sigma in pixels of the image it filters
+    dict(gen="Resample", name="filterSigmaPixels", file=_MEA, func="_BaseMeasurement2D.gaussian_filter", select=("elt", "s / d", 0),
+         params_map={"s": "sigma", "d": "d"}, params=["sigma", "d"], modes=["rat"]),
 ]
 FINGERPRINTS = {
     "_fourier_space_bilinear_nodes_and_weight": (_MEA, "_fourier_space_bilinear_nodes_and_weight"),
